@@ -182,6 +182,15 @@ func c07Case(i int, raw []byte) Result {
 		if !sameCps(cps(got), exp) {
 			return mk(c.Kind, feat, fmt.Sprintf("codes %v decode to %U, the ToUnicode CMap specifies %U (program %q)", c.Codes, []rune(got), toRunes(exp), toBytes(c.Program)), cps(got))
 		}
+		// a string that ends inside a code (its length is not a multiple of the code width): whatever the reader makes of the
+		// dangling bytes, what it returns is valid UTF-8 in NFC
+		for _, tail := range [][]byte{{0x41}, {0x80}, {0xff}, {0xc3}, {0xe2, 0x82}} {
+			s := ft.DecodeString(append(toBytes(c.Codes), tail...))
+			r.Evals++
+			if bad := checkOut(s, "cmap:dangling"); bad != nil {
+				return *bad
+			}
+		}
 		return r
 	case "utf16":
 		var exp []int
